@@ -34,7 +34,9 @@ def _make_relational_func(
             return sc.Stairs._new(
                 initial_value=initial_value,
                 data=None,
-                closed=other.closed if np.isnan(self.initial_value) else self.closed,
+                closed=other.closed
+                if (self._data is None and other._data is not None)
+                else self.closed,
             )
         elif self._data is None or other._data is None:
             if other._data is None:  # self._data exists
@@ -42,11 +44,13 @@ def _make_relational_func(
                 new_values = numpy_relational(values, other.initial_value).astype(float)
                 new_values[values.isna()] = np.nan
                 new_index = self._data.index
+                closed = self.closed
             else:  # other._data exists
                 values = other._get_values()
                 new_values = numpy_relational(self.initial_value, values).astype(float)
                 new_values[values.isna()] = np.nan
                 new_index = other._data.index
+                closed = other.closed
 
             new_instance = sc.Stairs._new(
                 initial_value=initial_value,
@@ -54,7 +58,7 @@ def _make_relational_func(
                     {"value": new_values * 1},
                     index=new_index,
                 ),
-                closed=self.closed,
+                closed=closed,
             )
             new_instance._remove_redundant_step_points()
             return new_instance
